@@ -5,6 +5,7 @@ import (
 	"fmt"
 	"math"
 	"os"
+	"reflect"
 	"regexp"
 	"sort"
 	"strconv"
@@ -697,6 +698,31 @@ func c05Reporting(c *Ctx) {
 	}
 }
 
+// c05Serialize calls GroupSet.Serialize through reflection, passing each parameter by its type (context, channel,
+// query): a change that adds a parameter to this internal function must not stop the checker from building.
+func c05Serialize(g *mapr.GroupSet, q *mapr.Query, ch *vrt.Chan[string]) {
+	m := reflect.ValueOf(g).MethodByName("Serialize")
+	if !m.IsValid() {
+		vrt.Failf("harness", "GroupSet.Serialize not found")
+		return
+	}
+	var args []reflect.Value
+	for i := 0; i < m.Type().NumIn(); i++ {
+		t := m.Type().In(i)
+		switch {
+		case t == reflect.TypeOf(q):
+			args = append(args, reflect.ValueOf(q))
+		case t == reflect.TypeOf(ch):
+			args = append(args, reflect.ValueOf(ch))
+		case reflect.TypeOf(vcontext.Background()).Implements(t) && t.Kind() == reflect.Interface:
+			args = append(args, reflect.ValueOf(vcontext.Background()))
+		default:
+			args = append(args, reflect.Zero(t))
+		}
+	}
+	m.Call(args)
+}
+
 // c05LargeValues: partial results whose numbers are large, tiny, negative or fractional travel through the real
 // serialisation (server side), the wire framing and the client's merge; the final result must be the one a central
 // evaluation prints (the same aggregate set merged directly, without serialisation).
@@ -739,7 +765,7 @@ func c05LargeValues(c *Ctx) {
 				h := chandlers.NewMaprHandler("srv0", q, global)
 				for i := 0; i < parts; i++ {
 					ch := vrt.Make[string]("maprMessages", 100)
-					mk().Serialize(vcontext.Background(), ch)
+					c05Serialize(mk(), q, ch)
 					for ch.Len("drain") > 0 {
 						h.Write([]byte("AGGREGATE|host0|" + ch.Recv("drain") + "\xac"))
 					}
